@@ -11,6 +11,7 @@ pub mod c07;
 pub mod c09a;
 pub mod c09b;
 pub mod c15;
+pub mod c15b;
 pub mod c18;
 pub mod c20;
 pub mod stateful;
@@ -41,7 +42,17 @@ pub fn run(ctx: &Ctx) -> Option<Report> {
         }
         "C10" => Some(brackets::run(ctx, true)),
         "C11" => Some(brackets::run(ctx, false)),
-        "C15" => Some(c15::run(ctx)),
+        "C15" => {
+            let mut r = c15::run(ctx);
+            if r.violations.is_empty() {
+                let floor = r.nontrivial_floor;
+                let ex = r.exhaustive;
+                r.merge(c15b::run(ctx));
+                r.nontrivial_floor = floor;
+                r.exhaustive = ex;
+            }
+            Some(r)
+        }
         "C18" => Some(c18::run(ctx)),
         "C20" => Some(c20::run(ctx)),
         "C06" => {
@@ -81,7 +92,13 @@ pub fn replay(ctx: &Ctx, case: &Value) -> Option<Report> {
         }
         "C10" => Some(brackets::replay(ctx, case, true)),
         "C11" => Some(brackets::replay(ctx, case, false)),
-        "C15" => Some(c15::replay(ctx, case)),
+        "C15" => {
+            if case.get("half").and_then(|h| h.as_str()) == Some("c15b") {
+                Some(c15b::replay(ctx, case))
+            } else {
+                Some(c15::replay(ctx, case))
+            }
+        }
         "C18" => Some(c18::replay(ctx, case)),
         "C20" => Some(c20::replay(ctx, case)),
         "C06" => {
